@@ -18,6 +18,7 @@
 package node_manager
 
 import (
+	"bytes"
 	"encoding/hex"
 	"fmt"
 	"github.com/polynetwork/poly/common"
@@ -204,10 +205,15 @@ func RegisterCandidate(native *native.NativeService) ([]byte, error) {
 	if err != nil {
 		return utils.BYTE_FALSE, fmt.Errorf("registerCandidate, get peerPoolMap error: %v", err)
 	}
-	//check if exist in PeerPool
-	_, ok := peerPoolMap.PeerPoolMap[params.PeerPubkey]
-	if ok {
-		return utils.BYTE_FALSE, fmt.Errorf("registerCandidate, peerPubkey is already in peerPoolMap")
+	//check if exist in PeerPool: compare the decoded keys, the same public key may be spelled in another hex case
+	for key := range peerPoolMap.PeerPoolMap {
+		k, err := hex.DecodeString(key)
+		if err != nil {
+			return utils.BYTE_FALSE, fmt.Errorf("registerCandidate, peerPubkey in peerPoolMap format error: %v", err)
+		}
+		if bytes.Equal(k, peerPubkeyPrefix) {
+			return utils.BYTE_FALSE, fmt.Errorf("registerCandidate, peerPubkey is already in peerPoolMap")
+		}
 	}
 
 	err = putPeerApply(native, params)
